@@ -73,7 +73,8 @@ package stream
 //@   requires fa_wf(a) && a.tracer == nil && rctx != nil && a.metrics != nil
 //@   preserve flowActor.outputBuf, flowActor.downstreamDemand, flowActor.seqNo, flowActor.completing, flowActor.downstream, flowActor.tracer
 //@   loop 1 invariant retry-leaves-the-buffer-alone: fa_wf(a) && a.tracer == nil && fa_len(a) == old(fa_len(a)) && a.outputBuf.head == old(a.outputBuf.head) && forall i int :: 0 <= i && i < old(fa_len(a)) ==> a.outputBuf.data[a.outputBuf.head + i] == old(a.outputBuf.data[a.outputBuf.head + i])
-//@   loop 2 invariant pushes-outputs-in-order: -1 <= rangeindex && rangeindex < len(outs) && fa_wf(a) && a.tracer == nil && fa_len(a) == old(fa_len(a)) + rangeindex + 1 && forall j int :: 0 <= j && j <= rangeindex ==> a.outputBuf.data[a.outputBuf.head + old(fa_len(a)) + j] == outs[j]
+//@   loop 2 invariant grows-by-one-per-output: -1 <= rangeindex && rangeindex < len(outs) && fa_wf(a) && a.tracer == nil && fa_len(a) == old(fa_len(a)) + rangeindex + 1
+//@   loop 2 invariant pushes-outputs-in-order: forall j int :: 0 <= j && j <= rangeindex ==> a.outputBuf.data[a.outputBuf.head + old(fa_len(a)) + j] == outs[j]
 //@   loop 2 invariant keeps-what-was-buffered: forall i int :: 0 <= i && i < old(fa_len(a)) ==> a.outputBuf.data[a.outputBuf.head + i] == old(a.outputBuf.data[a.outputBuf.head + i])
 
 // ---- per-element semantics of the stateless stages -------------------------------------
@@ -123,6 +124,7 @@ package stream
 //@   at call 5 of (*ReceiveContext).Tell assert cancels-upstream-when-every-branch-left: is(arg2, *streamCancel) && a.cancelled >= a.n
 //@   at call 2 of (*ReceiveContext).Tell assert routes-to-a-branch-that-asked: 0 <= chosen && chosen < a.n && arg1 == a.slots[chosen] && a.slots[chosen] != nil && a.demand[chosen] > 0 && arg2.(*streamElement).value == msg.value
 //@   at call 2 of (*ReceiveContext).Tell ghost bal_routed = bal_routed + 1
+//@   at call 2 of (*balanceHubActor).maybePull assert pulls-only-after-accounting-for-the-routed-element: chosen >= 0 ==> a.demand[chosen] == old(a.demand[chosen]) - 1 && bal_routed == 1
 //@   ensures dropped-only-when-no-branch-asked: is(rctx.message, *streamElement) && bal_routed == 0 ==> forall j int :: 0 <= j && j < a.n ==> !(old(a.slots[(a.nextSlot + j) % a.n]) != nil && old(a.demand[(a.nextSlot + j) % a.n]) > 0)
 //@   ensures never-more-than-one-branch: bal_routed <= 1
 //@ structural mapwriters balanceHubActor.slots: newSharedBalance, newSharedBalance$1, (*sharedBalance).registerSlot, (*balanceHubActor).Receive
